@@ -577,7 +577,7 @@ func scenarios() []hx.Scenario {
 		{-30 * time.Second, 90 * time.Second},
 	}
 	var outs []string
-	for n := 0; n <= 3; n++ {
+	for n := 0; n <= 4; n++ {
 		var rec func(p string)
 		rec = func(p string) {
 			if len(p) == n {
@@ -596,6 +596,9 @@ func scenarios() []hx.Scenario {
 				if long && len(o) > 1 {
 					continue
 				}
+				if len(o) == 4 && o != "fofo" && o != "foff" && o != "ofof" {
+					continue // length 4: a failure episode, a recovery, and a later failure episode
+				}
 				s := renewScen{first: w, next: nx, outcomes: o}
 				// the clock stops at the horizon: far enough for every scripted
 				// renewal (each at most one validity window + retries) to be due
@@ -610,7 +613,7 @@ func scenarios() []hx.Scenario {
 					minB = 0
 				}
 				out = append(out, hx.Scenario{
-					Name: s.name(), Class: "spiffe/renewal", ThoroughOnly: long || len(o) > 2,
+					Name: s.name(), Class: "spiffe/renewal", ThoroughOnly: long || len(o) > 2 && !(wi == 1 || wi == 4) && len(o) < 4 || len(o) == 4 && wi != 1,
 					Opts: mc.Options{Delay: true, MinBound: minB, Bound: minB, AutoClock: true, ClockLast: true, Horizon: horizon, MaxSteps: steps, Epoch: epoch},
 					Mk:   func() *mc.Exec { return mkRenew(s) },
 				})
